@@ -13,7 +13,7 @@ use wow_srp::server::{SrpProof, SrpServer};
 
 pub const N_LE: [u8; 32] = wow_srp::LARGE_SAFE_PRIME_LITTLE_ENDIAN;
 
-pub const CREDS: [(&str, &str); 8] = [
+pub const CREDS: [(&str, &str); 10] = [
     ("A", "A"),
     ("abcdefghijklmnop", "0123456789AbCdEf"),
     ("us:er\"n;am\\e", "p:a\"s;s\\w~ `"),
@@ -22,6 +22,8 @@ pub const CREDS: [(&str, &str); 8] = [
     ("sp ace", " lead trail "),
     ("z", "{|}~[]^_@?>=<"),
     ("!#$%&'()*+,-./", "aZ"),
+    ("12#1", "12#2"),
+    ("a@b.c", "p w~"),
 ];
 
 pub fn case_variant(s: &str, k: usize) -> String {
@@ -260,6 +262,46 @@ pub fn run_auth(args: &Args) -> (u64, u64) {
     }
     // three logins INTERLEAVED step by step on this thread (all register, then all proofs, all clients, all servers in
     // another order, all client verdicts, reconnects in turn): each object carries its own state, nothing is shared
+    // server keys chosen NEAR k*v (the client subtracts k*g^x from B): B - k*v with whole 32-bit / 64-bit words of ones or
+    // zeros, B equal to k*v in some words with a borrow coming from below, B = k*v - 1, k*v + 1, k*v + 2^(32 i) - 1.
+    // With the built-in group (7 generates every residue) each such B is the key of an honest server for SOME private key,
+    // so the specification's verdict on the client's proof is an honest server's verdict.
+    {
+        h.reset("auth-borrow-chains");
+        for (ci, (u, p)) in CREDS.iter().enumerate().take(if thorough { 10 } else { 3 }) {
+            let Some((_vo, ver)) = h.register(u, p, None) else { continue };
+            let v = *ver.password_verifier();
+            let salt = *ver.salt();
+            let kv = crate::util::le_add_mod(&crate::util::le_add_mod(&v, &v, &N_LE), &v, &N_LE);
+            let mut ds: Vec<[u8; 32]> = vec![];
+            let one = { let mut x = [0u8; 32]; x[0] = 1; x };
+            ds.push(one);
+            ds.push(crate::util::le_sub_mod(&[0u8; 32], &one, &N_LE));          // -1
+            for w in 0..8usize {
+                for width in [4usize, 8] {
+                    if 4 * w + width > 32 { continue; }
+                    let mut d = rnd32(&mut rng);
+                    d[31] &= 0x3F;
+                    for x in d.iter_mut().skip(4 * w).take(width) { *x = 0xFF; }
+                    ds.push(d);
+                    let mut d = rnd32(&mut rng);
+                    d[31] &= 0x3F;
+                    for x in d.iter_mut().skip(4 * w).take(width) { *x = 0; }
+                    ds.push(d);
+                    let mut d = [0u8; 32];                                     // 2^(32 w + 8 width) - 1
+                    for x in d.iter_mut().take(4 * w + width) { *x = 0xFF; }
+                    if d[31] < 0x80 { ds.push(d); }
+                }
+            }
+            for (di, d) in ds.iter().enumerate() {
+                if !thorough && (di + ci) % 2 == 1 && di > 4 { continue; }
+                for bb in [crate::util::le_add_mod(&kv, d, &N_LE), crate::util::le_sub_mod(&kv, d, &N_LE)] {
+                    let Some(bpub) = h.pubkey(bb) else { continue };
+                    h.client_new(u, p, wow_srp::GENERATOR, N_LE, bpub, salt, None);
+                }
+            }
+        }
+    }
     // the same grid once more with NOISE: before every recorded call, unrelated functions of other modules run on this
     // thread (PIN hashes with rejected PINs, integrity checks, refused keys and strings, header crypto, matrix cards,
     // a refused login, a small-group client) - no call may leave anything behind for the next one
@@ -468,6 +510,12 @@ pub fn run_tamper(args: &Args) -> (u64, u64) {
             }
             let mut r = m1; r.reverse(); variants.push(r);
             let mut r = m2; r.reverse(); variants.push(r);
+            // the digits of two neighbouring bytes / words regrouped (equal under an unpadded rendering)
+            for (src, lim) in [(m1, 6usize), (m2, 6)] {
+                let rv = crate::util::regroup_variants(&src);
+                let stepby = (rv.len() / lim).max(1);
+                for v in rv.iter().step_by(stepby).take(lim) { variants.push(a20(v)); }
+            }
             for t in variants {
                 if t != m1 {
                     let (pc, pp) = clone_proof(&mut h, po, &proof);
@@ -525,6 +573,25 @@ pub fn run_tamper(args: &Args) -> (u64, u64) {
                 if let Some(anpub) = h.pubkey(an) {
                     let (pc, pp) = clone_proof(&mut h, po, &proof);
                     h.into_server(pc, pp, anpub, m1);
+                }
+            }
+        }
+        // keys ABOVE the prime (valid: not a multiple of N), each with exactly the proof the server determines for it
+        // - learnt from the refusal of a first attempt on a clone - must be accepted: the decision depends on the proof alone
+        {
+            let mut above: Vec<[u8; 32]> = vec![[0xFFu8; 32]];
+            let mut t = N_LE; t[0] = t[0].wrapping_add(2); above.push(t);
+            let mut t = N_LE; t[31] = 0xFF; above.push(t);
+            let (an, ov) = crate::util::le_add(&abytes, &N_LE);
+            if !ov { above.push(an); }
+            for ka in above {
+                let Some(kpub) = h.pubkey(ka) else { continue };
+                let (pc, pp) = clone_proof(&mut h, po, &proof);
+                h.last_expected = None;
+                h.into_server(pc, pp, kpub, [0x5Au8; 20]);
+                if let Some(exp) = h.last_expected.take() {
+                    let (pc, pp) = clone_proof(&mut h, po, &proof);
+                    h.into_server(pc, pp, kpub, exp);
                 }
             }
         }
@@ -663,6 +730,12 @@ pub fn run_reconnect(args: &Args) -> (u64, u64) {
                         *x = 0;
                     }
                     if t == r.proof { None } else { Some((r.challenge_data, t)) }
+                }),
+                "regroupProof" => h.reconnect_values(s.co, &s.client, chal, None).and_then(|r| {
+                    // the right proof with the hex digits of two neighbouring bytes or words regrouped
+                    bitctr += 1;
+                    let rv = crate::util::regroup_variants(&r.proof);
+                    if rv.is_empty() { None } else { Some((r.challenge_data, a20(&rv[(bitctr * 5) % rv.len()]))) }
                 }),
                 "reflect" => {
                     // the client happens to (or chooses to) send the server's own challenge as its data: a correct proof
@@ -830,6 +903,10 @@ pub fn run_pubkey(args: &Args) -> (u64, u64) {
     let n = N_LE;
     h.pubkey(zero);
     h.pubkey(n);
+    // keys that READ like N when each byte (or 32-bit word) is printed without zero padding and the pieces are joined
+    for k in crate::util::regroup_variants(&n) {
+        h.pubkey(arr32(&k));
+    }
     // ORDER of calls: a valid key that collides with N (or 0) under a positional polynomial fingerprint of base 31, 33, 37,
     // 131 or 257 - one byte one lower, its neighbour `base` higher, in either direction - directly followed by N (or 0)
     for base in [31u16, 33, 37, 131, 257] {
